@@ -140,6 +140,10 @@ class _Tx(ast.NodeTransformer):
 
     def visit_Compare(self, node):
         self.generic_visit(node)
+        if len(node.ops) == 1 and isinstance(node.ops[0], (ast.Is, ast.IsNot)) and not (isinstance(node.comparators[0], ast.Constant) and node.comparators[0].value is None):
+            # object identity, judged modulo the pre-state snapshot (old(x) denotes the object x itself, not the snapshot copy)
+            call = ast.Call(ast.Name("same_ref", ast.Load()), [node.left, node.comparators[0]], [])
+            return call if isinstance(node.ops[0], ast.Is) else ast.UnaryOp(ast.Not(), call)
         if self.tolerant and len(node.ops) == 1 and isinstance(node.ops[0], (ast.Eq, ast.NotEq)):
             call = ast.Call(ast.Name("__eq__", ast.Load()), [node.left, node.comparators[0]], [])
             return call if isinstance(node.ops[0], ast.Eq) else ast.UnaryOp(ast.Not(), call)
@@ -546,10 +550,16 @@ def check_contract(c, limit=400, seed=0, max_fail=1):
         d["__pre__"] = dict(pre, result=result)
         d["__window__"] = WINDOW
         d["__fresh__"] = lambda x: id(x) not in fresh_base
+        d["same_ref"] = lambda a, b: rev.get(id(a), a) is rev.get(id(b), b)
         return d
+    rev = {}
     for args in itertools.chain([first], gen):
         res["considered"] += 1
-        pre = copy.deepcopy(args)
+        memo = {}
+        pre = copy.deepcopy(args, memo)
+        # snapshot copy -> the object it was copied from: `old(x)` evaluates on the snapshot, object identity is that of the original
+        rev.clear()
+        rev.update({id(memo[id(o)]): o for o in memo.get(id(memo), []) if id(o) in memo})
         try:
             ok = all(eval(r, ns(args, pre)) for r in requires)
         except Exception:  # noqa: BLE001
